@@ -237,7 +237,10 @@ def _render_component_tree(
             # Allow to optionally override/modify the rendered content from outside
             component_html = "".join(parent_parts)
             on_component_rendered = on_component_rendered_callbacks[curr_item.parent_id]
-            component_html = on_component_rendered(component_html)  # type: ignore[arg-type]
+            # NOTE: The callback runs the `on_render_after()` hook, so errors from it are reported
+            # with the path to the component, same as when the component is rendered (see below).
+            with component_error_message(curr_item.component_name_path[1:]):
+                component_html = on_component_rendered(component_html)  # type: ignore[arg-type]
 
             # Add the component's HTML to parent's parent's HTML parts
             if curr_item.grandparent_id is not None:
